@@ -32,6 +32,9 @@ CLAIMS = {
  "C07": ("exploration", "online overlap monitor (interval intersection on a logical clock) in an instrumented backend, driven by a pairwise rendezvous matrix with gates",
          "Every ordered pair of 23 backend-reaching operations (+ attach) x path relation is forced to rendezvous: A is parked inside its backend call, B is issued and observed until it entered the backend, was answered, or the process is quiet. The backend's monitor flags any pair of calls whose intervals intersect and which the File contract forbids (write/write, write/read on one path, UnlinkAt vs calls on the removed entry, RenameAt/Renamed vs anything classified), and any second Open on a handle; 2-4 concurrent Tlopen on one fid.",
          "Receiver paths are those memfs derives from Renamed notifications; hard links are excluded; the second operand of a pair is only parked-against, not itself parked (the matrix is ordered, so both orders are covered).", "DESIGN.md section 3 C07"),
+ "C14": ("exploration", "logical-clock ordering oracle: Rflush arrival vs enter/exit of the flushed request's backend calls, over every order of 4-event scripts with gates",
+         "13 kinds of request A (incl. multi-component walks parked at each component, renames parked in RenameAt and in Renamed, clunk parked in Close) are parked in the backend with an unrelated B; all 24 orders of {send Tflush(A), release A, release B, unrelated traffic}, plus two flushes for one tag and chains. Reply arrivals and backend enter/exit share one logical clock: every Rflush must be later than the exit of every call made on A's behalf and no such call may begin after it; A gets exactly one reply; flushes of idle/answered/own/NOTAG tags are answered while B is still parked.",
+         "Calls are attributed to A by construction; reply stamps are taken when the peer parsed the frame (never earlier than the send), so timing can only reduce sensitivity.", "DESIGN.md section 3 C14"),
 }
 
 PENDING = "check under construction in this round (DESIGN.md section 3); will be claimed once its monitor is committed and silent on the repaired tree"
